@@ -150,9 +150,14 @@ def prog_replay(prop, path, tier, seed):
     return 1 if rep.get("violation_total", 0) else 0
 
 
+IDX_HARNESSES = ["%s-%s" % (a, b) for a in ("CRelIndex-2x2", "CLatIndex-2x2") for b in ("same-shard", "different-shards", "one-key")] + \
+    ["CRelFullIndex-ina-2x2-same-shard", "CRelFullIndex-ina-2x2-different-shards", "CRelFullIndex-ina-one-key-count", "CRelIndex-3x1-one-key", "CRelNoIndex-3x1-N2", "CRelNoIndex-3x1-N3"]
+
+
 def c19_run(prop, tier, seed):
     cargo_build(ENGINES, ["--release", "-p", "hist", "--bin", "c19"])
-    reps = []
+    build_sched()
+    reps = [run_sched(prop, "idx", ["ALL"], tier, seed, extra_env={"VSCHED_ONLY_ALL": "1"})]
     for cfg in ("same", "diff"):
         reps.append(run_part("%s.serial-%s" % (prop, cfg), [os.path.join(REL, "c19")], tier, seed, env={"C19_KEYS": cfg}))
         reps[-1]["part"] = "serial-keys-" + cfg
@@ -238,7 +243,12 @@ SPECS["C03"] = {"run": prog_check(["lat"], "C03"), "replay": prog_replay,
 SPECS["C04"] = {"run": prog_check(["agg"], "C04"), "replay": prog_replay,
                 "technique": "bounded-exhaustive enumeration of stratified programs with aggregation / negation (compiled by the real macros) x all input databases, compared with a naive stratified evaluator",
                 "assumptions": P_ASSUME + ["aggregated relation is an input, a non-looping or looping stratum output, a lattice, an aggregate result, or the head of two strata; aggregators count sum min max mean percentile(50) not and a user aggregator"]}
-SPECS["C05"] = {"run": prog_check(["scc", "lat", "shape", "par"], "C05", report_compile_failures=False), "replay": prog_replay,
+def c05_run(prop, tier, seed):
+    fams = ["scc", "lat", "par"] + (["shape"] if tier == "thorough" else [])
+    return [par_sched_part(prop, tier, seed)] + prog_check(fams, "C05", report_compile_failures=False)(prop, tier, seed)
+
+
+SPECS["C05"] = {"run": c05_run, "replay": sched_replay("par"),
                 "technique": "bounded-exhaustive programs x inputs (incl. inputs with a duplicated fact) on the compiled real macros; row multiplicity, input-prefix and one-row-per-lattice-key oracles on every run",
                 "assumptions": P_ASSUME + ["serial part; the parallel part (all interleavings of workers deriving the same tuple) is explored by the vsched engine"]}
 SPECS["C13"] = {"run": prog_check(["scc", "lat", "agg", "par"], "C13", report_compile_failures=False), "replay": prog_replay,
@@ -274,6 +284,11 @@ SPECS["C17"] = {"run": hist_bin("c17"), "replay": hist_replay("c17"),
 SPECS["C18"] = {"run": hist_bin("c18"), "replay": hist_replay("c18"),
                 "technique": "exhaustive DFS over all operation histories up to a depth bound on the real structures, reference closure compared after every operation",
                 "assumptions": COMMON_ASSUME + ["4 (and 5) elements; histories up to depth 6/7 (TrRelUnionFind), 5/6 (UnionFind)"]}
-SPECS["C19"] = {"run": c19_run, "replay": hist_replay("c19"),
+def c19_replay(prop, path, tier, seed):
+    r = json.load(open(path))["replay"]
+    return sched_replay("idx")(prop, path, tier, seed) if isinstance(r, dict) and "harness" in r else hist_replay("c19")(prop, path, tier, seed)
+
+
+SPECS["C19"] = {"run": c19_run, "replay": c19_replay,
                 "technique": "exhaustive DFS over all operation histories on every real index type vs a reference multimap (serial part)",
                 "assumptions": COMMON_ASSUME + ["2 keys (same shard / different shards) x 2 values; depth 5 (6 thorough)"]}
